@@ -1,5 +1,5 @@
 (* C27 — proofs: the unique-cache invariant over all histories with an adversarial allocator *)
-From Coq Require Import ZArith NArith List Bool Lia.
+From Coq Require Import ZArith NArith Arith List Bool Lia.
 Import ListNotations.
 From Cffi Require Import C27.Model.
 
@@ -8,6 +8,23 @@ Lemma func_key_stored_ok : func_key_stored = true. Proof. reflexivity. Qed.
 Lemma keys_as_modelled_ok : keys_as_modelled = true. Proof. reflexivity. Qed.
 Lemma key_kids_ok h sh kids : key_kids h sh kids = ref_kids h sh kids.
 Proof. unfold key_kids. rewrite func_key_stored_ok. rewrite andb_false_r. reflexivity. Qed.
+
+(* ---------- the regenerated cache protocol is the one the invariant needs *)
+Lemma remove_only_if_dead_ok : gen_remove_only_if_dead = true. Proof. reflexivity. Qed.
+Lemma weakrefs_cleared_first_ok : weakrefs_cleared_first = true. Proof. reflexivity. Qed.
+Lemma dealloc_order_ok : dealloc_order_as_modelled = true. Proof. reflexivity. Qed.
+Lemma insert_after_live_check_ok : gen_insert_after_live_check = true. Proof. reflexivity. Qed.
+Lemma clear_keeps_ukey : clear_drops_ukey = false. Proof. reflexivity. Qed.
+Lemma clear_as_modelled_ok : clear_as_modelled = true. Proof. reflexivity. Qed.
+Lemma free_cache_ok c uk hchk :
+  free_cache c uk hchk = match uk with
+                         | Some k => match cache_get k c with
+                                     | Some j => if alive_nz hchk j then c else cache_del k c
+                                     | None => c
+                                     end
+                         | None => c
+                         end.
+Proof. unfold free_cache. rewrite remove_only_if_dead_ok. reflexivity. Qed.
 
 (* ---------- boolean equalities *)
 Lemma shape_eqb_spec a b : reflect (a = b) (shape_eqb a b).
@@ -21,10 +38,11 @@ Proof.
   destruct (N.eqb_spec x y); cbn; [|constructor; congruence].
   destruct (IH b); constructor; congruence.
 Qed.
-Lemma key_eqb_spec a b : reflect (a = b) (key_eqb a b).
+Lemma key_eqb_spec a : forall b, reflect (a = b) (key_eqb a b).
 Proof.
-  destruct a as [a1 a2], b as [b1 b2]; unfold key_eqb; cbn.
-  destruct (shape_eqb_spec a1 b1), (nlist_eqb_spec a2 b2); cbn; constructor; congruence.
+  unfold key_eqb. induction a as [|x a IH]; destruct b as [|y b]; cbn; try (constructor; congruence).
+  destruct (Z.eqb_spec x y); cbn; [|constructor; congruence].
+  destruct (IH b); constructor; congruence.
 Qed.
 
 (* ---------- cache *)
@@ -120,7 +138,7 @@ Proof.
   intros Hf. rewrite !map_map. split; apply map_ext; intros o; apply Hf.
 Qed.
 Lemma set_zombie_frame os : same_frame (set_zombie os).
-Proof. intros o. unfold set_zombie. destruct (nmem (t_oid o) os); cbn; auto. Qed.
+Proof. intros o. unfold set_zombie. rewrite clear_keeps_ukey. destruct (nmem (t_oid o) os); cbn; auto. Qed.
 Lemma set_kids_frame i kids : same_frame (set_kids i kids).
 Proof. intros o. unfold set_kids. destruct (N.eqb (t_oid o) i); cbn; auto. Qed.
 
@@ -153,7 +171,8 @@ Record Inv (s : state) : Prop := {
           t_ukey o = Some (desc_key (heap s) o) /\ cache_get (desc_key (heap s) o) (cache s) = Some (t_oid o);
   i_agg : forall o, In o (heap s) -> is_agg (t_shape o) = true -> t_ukey o = None;
   i_sound : forall k i o, cache_get k (cache s) = Some i -> find_obj i (heap s) = Some o ->
-            t_zombie o = false -> t_ukey o = Some k
+            t_zombie o = false -> t_ukey o = Some k;
+  i_wf : forall o, In o (heap s) -> wf_shape (t_shape o) (length (t_kids o)) = true
 }.
 
 Lemma inv_init : Inv init.
@@ -171,20 +190,37 @@ Proof. intros H. cbn. destruct (N.eqb_spec (t_oid x) i); [congruence|auto]. Qed.
 
 Lemma key_of_ext h h' sh kids :
   (forall c, In c kids -> addr_of h' c = addr_of h c) -> key_of h' sh kids = key_of h sh kids.
-Proof. intros H. unfold key_of. f_equal. apply map_ext_in. exact H. Qed.
+Proof.
+  intros H. unfold key_of. apply flat_map_ext. intros k.
+  assert (Hhd : hd_word h' kids = hd_word h kids).
+  { destruct kids as [|c t]; cbn; auto. unfold aw. rewrite H; cbn; auto. }
+  assert (Htl : map (aw h') (tl kids) = map (aw h) (tl kids)).
+  { apply map_ext_in. intros c Hc. unfold aw. rewrite H; auto. destruct kids; cbn in *; [tauto|auto]. }
+  destruct k; cbn [src_words]; congruence.
+Qed.
+
+Lemma agg_wf sh n : is_agg sh = true -> wf_shape sh n = true.
+Proof.
+  unfold is_agg, wf_shape. intros H. apply N.eqb_eq in H. rewrite H. reflexivity.
+Qed.
+Lemma ref_kids_length h sh kids0 : length (ref_kids h sh kids0) = length kids0.
+Proof.
+  unfold ref_kids. destruct (N.eqb (fst sh) 4); auto. destruct kids0; cbn; auto. rewrite map_length. auto.
+Qed.
 
 (* ---------- preservation *)
 Lemma step_inv s o : Inv s -> Inv (fst (step s o)).
 Proof.
   intros HI. destruct o as [h sh kids0 a|i kids|h|i|os]; cbn [step].
   - (* New *)
-    rewrite key_kids_ok. set (kids := ref_kids (heap s) sh kids0).
-    destruct (match hlookup h (handles s) with Some _ => true | None => false end
-              || negb (forallb (alive_nz (heap s)) kids0) || negb (forallb (alive_nz (heap s)) kids)
-              || occupied (heap s) a) eqn:Hpre; [auto|].
+    rewrite key_kids_ok. change gen_insert_after_live_check with true. cbn [andb].
+    set (kids := ref_kids (heap s) sh kids0).
+    destruct (new_pre s h sh kids0 kids a) eqn:Hpre; [auto|]. unfold new_pre in Hpre.
+    apply orb_false_iff in Hpre as [Hpre Hwf]. apply negb_false_iff in Hwf.
+    rewrite <- (ref_kids_length (heap s) sh kids0) in Hwf. fold kids in Hwf.
     apply orb_false_iff in Hpre as [Hpre Hocc]. apply orb_false_iff in Hpre as [Hpre Hk].
     apply negb_false_iff in Hk. rewrite forallb_forall in Hk.
-    destruct HI as [I1 I2 I3 I4 I5 I6 I7 I8].
+    destruct HI as [I1 I2 I3 I4 I5 I6 I7 I8 I9].
     set (n := next_oid s) in *.
     assert (Hn : forall o, In o (heap s) -> t_oid o <> n) by (intros o Ho; specialize (I3 o Ho); lia).
     assert (Hkn : forall c, In c kids -> c <> n).
@@ -230,7 +266,8 @@ Proof.
       - intros o [E|Ho] Hag; [subst; cbn in *; auto|eauto].
       - intros k i o Hg Hf Hz. cbn in Hf. destruct (N.eqb_spec n i).
         + inversion Hf; subst. cbn. apply C6; auto.
-        + eapply C5; eauto. }
+        + eapply C5; eauto.
+      - intros o [E|Ho]; [subst o; cbn; auto|auto]. }
     destruct (is_agg sh) eqn:Hag.
     + (* aggregate: not uniqued *)
       apply ADD; try (intros; discriminate); auto.
@@ -272,7 +309,7 @@ Proof.
     destruct (is_agg (t_shape o) && negb (t_zombie o) && forallb (alive_nz (heap s)) kids) eqn:Hpre; [|auto].
     apply andb_true_iff in Hpre as [Hpre Hk]. apply andb_true_iff in Hpre as [Hag Hz].
     rewrite forallb_forall in Hk.
-    destruct HI as [I1 I2 I3 I4 I5 I6 I7 I8].
+    destruct HI as [I1 I2 I3 I4 I5 I6 I7 I8 I9].
     pose proof (set_kids_frame i kids) as FR. destruct (map_map_frame _ (heap s) FR) as [Mo Ma].
     assert (Hal : forall c, alive_nz (map (set_kids i kids) (heap s)) c = alive_nz (heap s) c).
     { intros c. unfold alive_nz. rewrite find_obj_map by auto. destruct (find_obj c (heap s)) as [oc|]; cbn; auto.
@@ -300,13 +337,18 @@ Proof.
       destruct (find_obj i' (heap s)) as [o0|] eqn:Hf0; [|discriminate]. cbn in Hf'. inversion Hf'; subst.
       destruct (FR o0) as (_ & _ & Eu & _). rewrite Eu. eapply I8; eauto.
       unfold set_kids in Hz'. destruct (N.eqb (t_oid o0) i); auto.
+    + intros o' Ho'. apply in_map_iff in Ho' as [o0 [E Ho0]]. subst.
+      unfold set_kids. destruct (N.eqb_spec (t_oid o0) i) as [Ei|Ni]; [|auto]. cbn.
+      pose proof (In_find_obj _ _ I1 Ho0) as F. rewrite Ei, Hf in F. inversion F; subst.
+      apply agg_wf; auto.
   - (* Unhandle *)
     destruct HI. constructor; auto.
   - (* Free *)
     destruct (find_obj i (heap s)) as [o|] eqn:Hf; [|auto].
     destruct (has_handle s i || has_parent (heap s) i) eqn:Hpre; [auto|].
     apply orb_false_iff in Hpre as [_ Hpar].
-    destruct HI as [I1 I2 I3 I4 I5 I6 I7 I8].
+    change weakrefs_cleared_first with true. cbv iota. rewrite free_cache_ok.
+    destruct HI as [I1 I2 I3 I4 I5 I6 I7 I8 I9].
     apply find_obj_In in Hf as [Hin Eo].
     assert (Hnokid : forall o', In o' (heap s) -> t_zombie o' = false -> ~ In i (t_kids o')).
     { intros o' Ho' Hz' Hk. unfold has_parent in Hpar.
@@ -353,10 +395,11 @@ Proof.
     + intros k j o' Hg Hf' Hz'. apply Hsub in Hg.
       destruct (N.eq_dec j i) as [->|Hne]; [unfold h' in Hf'; rewrite find_obj_del_same in Hf'; discriminate|].
       unfold h' in Hf'. rewrite find_obj_del_other in Hf' by auto. eauto.
+    + intros o' Ho'. apply In_heap_del in Ho' as [Ho' _]. auto.
   - (* GcClear *)
     destruct (forallb _ os) eqn:Hpre; [|auto].
     rewrite forallb_forall in Hpre.
-    destruct HI as [I1 I2 I3 I4 I5 I6 I7 I8].
+    destruct HI as [I1 I2 I3 I4 I5 I6 I7 I8 I9].
     pose proof (set_zombie_frame os) as FR. destruct (map_map_frame _ (heap s) FR) as [Mo Ma].
     assert (Hz0 : forall o0, t_zombie (set_zombie os o0) = false -> t_zombie o0 = false /\ ~ In (t_oid o0) os).
     { intros o0. unfold set_zombie. destruct (nmem (t_oid o0) os) eqn:Hm; cbn; [discriminate|].
@@ -391,6 +434,8 @@ Proof.
     + intros k j o' Hg Hf' Hz'. rewrite find_obj_map in Hf' by auto.
       destruct (find_obj j (heap s)) as [o0|] eqn:Hf0; [|discriminate]. cbn in Hf'. inversion Hf'; subst.
       destruct (Hz0 _ Hz') as [Hz _]. destruct (FR o0) as (_ & _ & Eu & _). rewrite Eu. eapply I8; eauto.
+    + intros o' Ho'. apply in_map_iff in Ho' as [o0 [E Ho0]]. subst.
+      destruct (FR o0) as (_ & _ & _ & Es). rewrite Es, Hk0. auto.
 Qed.
 
 Lemma run_inv h : forall s, Inv s -> Inv (fst (run s h)).
@@ -413,7 +458,7 @@ Theorem canonical s o1 o2 :
   t_zombie o1 = false -> t_zombie o2 = false -> is_agg (t_shape o1) = false ->
   t_shape o1 = t_shape o2 -> t_kids o1 = t_kids o2 -> o1 = o2.
 Proof.
-  intros HR H1 H2 Z1 Z2 A1 Es Ek. apply reachable_inv in HR. destruct HR as [I1 I2 I3 I4 I5 I6 I7 I8].
+  intros HR H1 H2 Z1 Z2 A1 Es Ek. apply reachable_inv in HR. destruct HR as [I1 I2 I3 I4 I5 I6 I7 I8 I9].
   assert (A2 : is_agg (t_shape o2) = false) by congruence.
   destruct (I6 o1 H1 Z1 A1) as [_ G1]. destruct (I6 o2 H2 Z2 A2) as [_ G2].
   unfold desc_key in *. rewrite Es, Ek in G1. rewrite G1 in G2. inversion G2 as [E].
@@ -445,12 +490,94 @@ Proof.
   f_equal; [eapply addr_of_inj; eauto|]. apply IH; auto.
 Qed.
 
+(* ---------- the key words determine the description: no two different descriptions of types that
+   can be alive together have the same words (one-word keys: static objects vs heap objects; two words: arrays;
+   three or more: functions; the length word is the length mod 2^64, injective on -1 .. 2^63-1) *)
+Lemma aw_inj h c1 c2 :
+  NoDup (map t_addr h) -> alive_nz h c1 = true -> alive_nz h c2 = true -> aw h c1 = aw h c2 -> c1 = c2.
+Proof.
+  intros Hnd A1 A2 E. destruct (alive_nz_In _ _ A1) as (o1 & F1 & _). destruct (alive_nz_In _ _ A2) as (o2 & F2 & _).
+  unfold aw in E. apply N2Z.inj in E. eapply addr_of_inj; eauto.
+Qed.
+Lemma map_aw_inj h k1 : forall k2,
+  NoDup (map t_addr h) ->
+  (forall c, In c k1 -> alive_nz h c = true) -> (forall c, In c k2 -> alive_nz h c = true) ->
+  map (aw h) k1 = map (aw h) k2 -> k1 = k2.
+Proof.
+  induction k1 as [|c1 k1 IH]; destruct k2 as [|c2 k2]; cbn; intros Hnd A1 A2 E; try discriminate; auto.
+  inversion E as [[E1 E2]]. f_equal; [eapply aw_inj; eauto|apply IH; auto].
+Qed.
+
+Lemma wf_cases sh (kids : list N) : wf_shape sh (length kids) = true -> is_agg sh = false ->
+  (exists z, sh = (0%N, z) /\ (0 <= z)%Z /\ kids = []) \/
+  (sh = (1%N, 0%Z) /\ kids = []) \/
+  (exists c, sh = (2%N, 0%Z) /\ kids = [c]) \/
+  (exists z c, sh = (3%N, z) /\ (-1 <= z < 9223372036854775808)%Z /\ kids = [c]) \/
+  (exists z r args, sh = (4%N, z) /\ (0 <= z < W64)%Z /\ kids = r :: args).
+Proof.
+  destruct sh as [k z]. unfold wf_shape, is_agg. cbn [fst snd].
+  destruct (N.eqb_spec k 0) as [->|N0].
+  { intros H _. apply andb_true_iff in H as [Hz Hn]. apply Z.leb_le in Hz.
+    left. exists z. destruct kids; [auto|discriminate]. }
+  destruct (N.eqb_spec k 1) as [->|N1].
+  { intros H _. apply andb_true_iff in H as [Hz Hn]. apply Z.eqb_eq in Hz. subst.
+    right; left. destruct kids; [auto|discriminate]. }
+  destruct (N.eqb_spec k 2) as [->|N2].
+  { intros H _. apply andb_true_iff in H as [Hz Hn]. apply Z.eqb_eq in Hz. subst.
+    right; right; left. destruct kids as [|c [|]]; try discriminate. eauto. }
+  destruct (N.eqb_spec k 3) as [->|N3].
+  { intros H _. apply andb_true_iff in H as [Hz Hn]. apply andb_true_iff in Hz as [Hz1 Hz2].
+    apply Z.leb_le in Hz1. apply Z.ltb_lt in Hz2.
+    right; right; right; left. destruct kids as [|c [|]]; try discriminate. exists z, c. auto. }
+  destruct (N.eqb_spec k 4) as [->|N4].
+  { intros H _. apply andb_true_iff in H as [Hz Hn]. apply andb_true_iff in Hz as [Hz1 Hz2].
+    apply Z.leb_le in Hz1. apply Z.ltb_lt in Hz2.
+    right; right; right; right. destruct kids as [|r args]; try discriminate. exists z, r, args. auto. }
+  intros H1 H2. congruence.
+Qed.
+
+Lemma len_word z : (-1 <= z < 9223372036854775808)%Z -> (z mod W64 = if z <? 0 then W64 - 1 else z)%Z.
+Proof.
+  intros H. destruct (Z.ltb_spec z 0).
+  - assert (z = (-1)%Z) by lia. subst. reflexivity.
+  - apply Z.mod_small. unfold W64. lia.
+Qed.
+
+Lemma key_of_inj h sh1 k1 sh2 k2 :
+  NoDup (map t_addr h) ->
+  wf_shape sh1 (length k1) = true -> wf_shape sh2 (length k2) = true ->
+  is_agg sh1 = false -> is_agg sh2 = false ->
+  (forall c, In c k1 -> alive_nz h c = true) -> (forall c, In c k2 -> alive_nz h c = true) ->
+  key_of h sh1 k1 = key_of h sh2 k2 -> sh1 = sh2 /\ k1 = k2.
+Proof.
+  intros Hnd W1 W2 A1 A2 L1 L2.
+  destruct (wf_cases _ _ W1 A1)
+    as [(z1 & -> & Hz1 & ->)|[(-> & ->)|[(c1 & -> & ->)|[(z1 & c1 & -> & Hz1 & ->)|(z1 & r1 & a1 & -> & Hz1 & ->)]]]];
+  destruct (wf_cases _ _ W2 A2)
+    as [(z2 & -> & Hz2 & ->)|[(-> & ->)|[(c2 & -> & ->)|[(z2 & c2 & -> & Hz2 & ->)|(z2 & r2 & a2 & -> & Hz2 & ->)]]]];
+  unfold key_of, recipe_of; cbn; unfold static_word; cbn; intros E; try discriminate E.
+  all: try (exfalso; injection E as E; unfold aw in *; lia).
+  - (* primitive / primitive: different table entries *)
+    injection E as E. split; [f_equal; lia|reflexivity].
+  - split; reflexivity.
+  - (* pointer / pointer *)
+    injection E as E. split; [reflexivity|]. f_equal. apply (aw_inj h); auto; [apply L1|apply L2]; left; auto.
+  - (* array / array: the pointer type and the length word *)
+    injection E as E1 E2. rewrite !len_word in E2 by auto.
+    assert (z1 = z2) by (destruct (Z.ltb_spec z1 0), (Z.ltb_spec z2 0); unfold W64 in *; lia).
+    split; [congruence|]. f_equal. apply (aw_inj h); auto; [apply L1|apply L2]; left; auto.
+  - (* function / function *)
+    injection E as Er Ez En Ea. rewrite !Z.mod_small in Ez by auto.
+    split; [congruence|].
+    rewrite !app_nil_r in Ea. apply (map_aw_inj h); auto. cbn [map]. congruence.
+Qed.
+
 (* every cache entry whose weak reference is alive points to a type whose description is its key *)
 Theorem entries_sound s k i o :
   reachable s -> cache_get k (cache s) = Some i -> find_obj i (heap s) = Some o -> t_zombie o = false ->
   is_agg (t_shape o) = false /\ k = desc_key (heap s) o.
 Proof.
-  intros HR Hg Hf Hz. apply reachable_inv in HR. destruct HR as [I1 I2 I3 I4 I5 I6 I7 I8].
+  intros HR Hg Hf Hz. apply reachable_inv in HR. destruct HR as [I1 I2 I3 I4 I5 I6 I7 I8 I9].
   pose proof (I8 _ _ _ Hg Hf Hz) as Hu. apply find_obj_In in Hf as [Hin _].
   destruct (is_agg (t_shape o)) eqn:Ha; [rewrite (I7 _ Hin Ha) in Hu; discriminate|].
   split; auto. destruct (I6 o Hin Hz Ha) as [Hu2 _]. congruence.
@@ -469,13 +596,14 @@ Theorem new_returns s h sh kids0 a i :
                                           ~ (t_shape o0 = sh /\ t_kids o0 = kids))).
 Proof.
   intros HR Hag H. pose proof (reachable_inv _ HR) as HI. cbn [step] in *.
-  rewrite key_kids_ok in *. set (kids := ref_kids (heap s) sh kids0) in *.
-  destruct (match hlookup h (handles s) with Some _ => true | None => false end
-            || negb (forallb (alive_nz (heap s)) kids0) || negb (forallb (alive_nz (heap s)) kids)
-            || occupied (heap s) a) eqn:Hpre; [discriminate|].
+  rewrite key_kids_ok in *. change gen_insert_after_live_check with true in *. cbn [andb] in *.
+  set (kids := ref_kids (heap s) sh kids0) in *.
+  destruct (new_pre s h sh kids0 kids a) eqn:Hpre; [discriminate|]. unfold new_pre in Hpre.
+  apply orb_false_iff in Hpre as [Hpre Hwf]. apply negb_false_iff in Hwf.
+  rewrite <- (ref_kids_length (heap s) sh kids0) in Hwf. fold kids in Hwf.
   apply orb_false_iff in Hpre as [Hpre Hocc]. apply orb_false_iff in Hpre as [_ Hk].
   apply negb_false_iff in Hk. rewrite forallb_forall in Hk.
-  rewrite Hag in *. destruct HI as [I1 I2 I3 I4 I5 I6 I7 I8].
+  rewrite Hag in *. destruct HI as [I1 I2 I3 I4 I5 I6 I7 I8 I9].
   set (k := key_of (heap s) sh kids) in *.
   assert (FRESH : (forall j, cache_get k (cache s) = Some j -> alive_nz (heap s) j = false) ->
                   forall o0, In o0 (heap s) -> t_zombie o0 = false -> ~ (t_shape o0 = sh /\ t_kids o0 = kids)).
@@ -491,9 +619,9 @@ Proof.
       pose proof (I8 _ _ _ Hg Hf Hz) as Hu. pose proof (find_obj_In _ _ _ Hf) as [Hin _].
       destruct (is_agg (t_shape o)) eqn:Ha; [rewrite (I7 _ Hin Ha) in Hu; discriminate|].
       destruct (I6 o Hin Hz Ha) as [Hu2 _]. rewrite Hu in Hu2. inversion Hu2 as [Ek].
-      unfold k, desc_key, key_of in Ek. inversion Ek as [[Es Em]].
-      split; [auto|]. split; [|left; auto].
-      symmetry. eapply kids_of_key; eauto.
+      (* the words of the requested description are the words of o's description: same description *)
+      unfold k, desc_key in Ek.
+      destruct (key_of_inj (heap s) sh kids (t_shape o) (t_kids o)) as [Es Em]; auto; [intros c Hc; eapply I5; eauto].
     + cbn in H. injection H as <-. cbn [fst heap find_obj t_oid]. rewrite N.eqb_refl.
       eexists. split; [reflexivity|]. cbn. repeat split; auto. right. split; auto.
       apply FRESH. intros j' E. inversion E; subst; auto.
@@ -553,7 +681,7 @@ Proof.
   intros HI Hal. unfold decay. destruct (alive_nz_In _ _ Hal) as (o & Hf & Hz). rewrite Hf.
   destruct (N.eqb (fst (t_shape o)) 3); auto.
   destruct (t_kids o) as [|c rest] eqn:Hk; cbn; auto.
-  apply find_obj_In in Hf as [Hin _]. destruct HI as [_ _ _ _ I5 _ _ _].
+  apply find_obj_In in Hf as [Hin _]. destruct HI as [_ _ _ _ I5 _ _ _ _].
   apply (I5 o Hin Hz c). rewrite Hk. left; auto.
 Qed.
 
@@ -565,4 +693,16 @@ Proof.
   destruct kids0 as [|res args]; auto. cbn in *. apply andb_true_iff in H as [Hr Ha]. rewrite Hr. cbn.
   rewrite forallb_forall in *. intros c Hc. apply in_map_iff in Hc as [a0 [E Ha0]]. subst.
   apply decay_alive; auto.
+Qed.
+
+(* the key words of two live non-aggregate types of a reachable state are equal only if the types have the
+   same description: nothing but the words (no kind tag) is needed to tell descriptions apart *)
+Theorem key_words_injective s o1 o2 :
+  reachable s -> In o1 (heap s) -> In o2 (heap s) -> t_zombie o1 = false -> t_zombie o2 = false ->
+  is_agg (t_shape o1) = false -> is_agg (t_shape o2) = false ->
+  key_of (heap s) (t_shape o1) (t_kids o1) = key_of (heap s) (t_shape o2) (t_kids o2) ->
+  t_shape o1 = t_shape o2 /\ t_kids o1 = t_kids o2.
+Proof.
+  intros HR H1 H2 Z1 Z2 A1 A2 E. apply reachable_inv in HR. destruct HR as [I1 I2 I3 I4 I5 I6 I7 I8 I9].
+  apply (key_of_inj (heap s)); auto; intros c Hc; [apply (I5 o1)|apply (I5 o2)]; auto.
 Qed.
